@@ -267,8 +267,8 @@ Record WInv (w : world) : Prop := {
 
 (** [w'] has the same observable core as [w] *)
 Definition wsame (w w' : world) : Prop :=
-  live w' = live w /\ vals w' = vals w /\ badw w' = badw w /\ drop_ids (log w') = drop_ids (log w) /\ pan w' = pan w
-  /\ wa w' = wa w /\ wf w' = wf w.
+  live w' = live w /\ vals w' = vals w /\ badw w' = badw w /\ drop_ids (log w') = drop_ids (log w) /\ pan w' = pan w.
+Definition wheap (w w' : world) : Prop := wa w' = wa w /\ wf w' = wf w.
 (** [w'] is [w] plus the new identity [nid] of value [x] *)
 Definition wborn (w w' : world) (nid x : N) : Prop :=
   nid = len (vals w) /\ live w' = nid :: live w /\ vals w' = vals w ++ [x] /\ badw w' = badw w
@@ -281,7 +281,11 @@ Definition wdied (w w' : world) (id : N) : Prop :=
 Lemma wsame_refl w : wsame w w.
 Proof. unfold wsame; tauto. Qed.
 Lemma wsame_trans w1 w2 w3 : wsame w1 w2 -> wsame w2 w3 -> wsame w1 w3.
-Proof. unfold wsame. intros (a&b&c&d&e&f&g) (a'&b'&c'&d'&e'&f'&g'). repeat split; congruence. Qed.
+Proof. unfold wsame. intros (a&b&c&d&e) (a'&b'&c'&d'&e'). repeat split; congruence. Qed.
+Lemma wheap_refl w : wheap w w.
+Proof. unfold wheap; tauto. Qed.
+Lemma wheap_trans w1 w2 w3 : wheap w1 w2 -> wheap w2 w3 -> wheap w1 w3.
+Proof. unfold wheap. intros (a&b) (a'&b'). split; congruence. Qed.
 
 Lemma WInv_same w w' : WInv w -> wsame w w' -> WInv w'.
 Proof.
@@ -623,10 +627,10 @@ Proof.
 Qed.
 
 Lemma set_cap_spec w v c w' v' : vsound v -> vlen v <= c -> set_cap w v c = (w', v') ->
-  wsame w w' /\ vcapn v' = c /\ vlen v' = vlen v /\ elems v' = elems v /\ vsound v'.
+  (wsame w w' /\ wheap w w') /\ vcapn v' = c /\ vlen v' = vlen v /\ elems v' = elems v /\ vsound v'.
 Proof.
   intros Hs Hc. unfold set_cap. destruct (Nat.eqb c (vcapn v)) eqn:E; intros H; injection H as <- <-.
-  - apply Nat.eqb_eq in E. split; [apply wsame_refl|]. split; [auto|]. split; [reflexivity|]. split; [reflexivity|exact Hs].
+  - apply Nat.eqb_eq in E. split; [split; [apply wsame_refl|apply wheap_refl]|]. split; [auto|]. split; [reflexivity|]. split; [reflexivity|exact Hs].
   - assert (elems (mkV (firstn c (slots v) ++ repeat U (c - vcapn v)) (vlen v)) = elems v) as He.
     { apply elems_same_prefix; cbn [vlen slots]; auto.
       rewrite firstn_app, firstn_firstn. rewrite firstn_length. destruct Hs as [Hl _]. unfold vcapn in Hl.
@@ -634,29 +638,29 @@ Proof.
       cbn [firstn]. apply app_nil_r. }
     assert (vcapn (mkV (firstn c (slots v) ++ repeat U (c - vcapn v)) (vlen v)) = c) as Hcap.
     { unfold vcapn. cbn [slots]. rewrite app_length, firstn_length, repeat_length. lia. }
-    split; [unfold wsame, ev_realloc; wfields; repeat split; reflexivity|].
+    split; [unfold wsame, wheap, ev_realloc; wfields; repeat split; reflexivity|].
     split; [exact Hcap|]. split; [reflexivity|]. split; [exact He|].
     split; [rewrite Hcap; cbn [vlen]; exact Hc | rewrite He; cbn [vlen]; apply Hs].
 Qed.
 
 Lemma thin_reserve_spec w v add w' v' : vsound v -> thin_reserve w v add = (w', v') ->
-  wsame w w' /\ vlen v + add <= vcapn v' /\ vcapn v <= vcapn v' /\ vlen v' = vlen v /\ elems v' = elems v /\ vsound v'.
+  (wsame w w' /\ wheap w w') /\ vlen v + add <= vcapn v' /\ vcapn v <= vcapn v' /\ vlen v' = vlen v /\ elems v' = elems v /\ vsound v'.
 Proof.
   intros Hs. unfold thin_reserve. destruct (Nat.ltb (vcapn v - vlen v) add) eqn:E.
   - intros H. apply set_cap_spec in H; [|exact Hs|lia]. destruct H as (A & B & C & D & F).
     split; [exact A|]. split; [lia|]. split; [lia|]. split; [exact C|]. split; [exact D|exact F].
   - intros H. injection H as <- <-. apply Nat.ltb_ge in E. pose proof Hs as [Hl He].
-    split; [apply wsame_refl|]. split; [lia|]. split; [lia|]. split; [reflexivity|]. split; [reflexivity|exact Hs].
+    split; [split; [apply wsame_refl|apply wheap_refl]|]. split; [lia|]. split; [lia|]. split; [reflexivity|]. split; [reflexivity|exact Hs].
 Qed.
 
 Lemma thin_reserve_exact_spec w v add w' v' : vsound v -> thin_reserve_exact w v add = (w', v') ->
-  wsame w w' /\ vlen v + add <= vcapn v' /\ vlen v' = vlen v /\ elems v' = elems v /\ vsound v'.
+  (wsame w w' /\ wheap w w') /\ vlen v + add <= vcapn v' /\ vlen v' = vlen v /\ elems v' = elems v /\ vsound v'.
 Proof.
   intros Hs. unfold thin_reserve_exact. destruct (Nat.ltb (vcapn v - vlen v) add) eqn:E.
   - intros H. apply set_cap_spec in H; [|exact Hs|lia]. destruct H as (A & B & C & D & F).
     split; [exact A|]. split; [lia|]. split; [exact C|]. split; [exact D|exact F].
   - intros H. injection H as <- <-. apply Nat.ltb_ge in E. pose proof Hs as [Hl He].
-    split; [apply wsame_refl|]. split; [lia|]. split; [reflexivity|]. split; [reflexivity|exact Hs].
+    split; [split; [apply wsame_refl|apply wheap_refl]|]. split; [lia|]. split; [reflexivity|]. split; [reflexivity|exact Hs].
 Qed.
 
 (** ** the pool *)
@@ -811,3 +815,125 @@ Lemma cnt_nth_split (l : list N) i x : i < length l ->
 Proof.
   intros H. rewrite (cnt_firstn_skipn l (S i) x). rewrite (firstn_snoc_nth l i 0%N H), count_occ_app. lia.
 Qed.
+
+(** ** vector-level effect of the slot manipulations *)
+Ltac nat_bool :=
+  repeat match goal with
+  | |- context [Nat.eqb ?a ?b] => destruct (Nat.eqb_spec a b)
+  | |- context [Nat.ltb ?a ?b] => destruct (Nat.ltb_spec a b)
+  | |- context [Nat.leb ?a ?b] => destruct (Nat.leb_spec a b)
+  end; cbn [andb orb negb].
+
+Ltac capsolve := unfold vcapn in *; cbn [slots vlen] in *; rewrite ?updn_length, ?wrl_length, ?slots_from_length; lia.
+
+Definition insertv (v : vec) (i : nat) (id : N) : vec :=
+  mkV (updn (wrl (slots v) (S i) (slots_from v i (vlen v - i))) i (E id)) (S (vlen v)).
+Definition removev (v : vec) (i : nat) : vec :=
+  mkV (wrl (slots v) i (slots_from v (S i) (vlen v - i - 1))) (vlen v - 1).
+
+Lemma insertv_spec v i id : vsound v -> i <= vlen v -> vlen v < vcapn v ->
+  vsound (insertv v i id) /\ elems (insertv v i id) = insert_at (elems v) i id /\ vcapn (insertv v i id) = vcapn v.
+Proof.
+  intros Hs Hi Hc. pose proof Hs as [Hl He].
+  assert (vcapn (insertv v i id) = vcapn v) as Hcap by (unfold insertv; capsolve).
+  destruct (vsound_ext (insertv v i id) (insert_at (elems v) i id)) as [A B].
+  - rewrite Hcap. cbn [insertv vlen]. lia.
+  - rewrite insert_at_length. cbn [insertv vlen]. lia.
+  - cbn [insertv vlen]. intros j Hj. unfold rd. cbn [insertv slots].
+    rewrite nth_updn by (rewrite wrl_length; unfold vcapn in Hc; lia).
+    rewrite nth_wrl by (rewrite slots_from_length; unfold vcapn in Hc; lia). rewrite slots_from_length.
+    rewrite nth_insert_at by lia. nat_bool; try lia; auto;
+      first [ rewrite nth_slots_from by lia; rewrite rd_elems by (auto; lia); f_equal; f_equal; lia
+            | fold (rd v j); apply rd_elems; [exact Hs|lia] ].
+  - auto.
+Qed.
+
+Lemma removev_spec v i : vsound v -> i < vlen v ->
+  vsound (removev v i) /\ elems (removev v i) = remove_at (elems v) i /\ vcapn (removev v i) = vcapn v.
+Proof.
+  intros Hs Hi. pose proof Hs as [Hl He].
+  assert (vcapn (removev v i) = vcapn v) as Hcap by (unfold removev; capsolve).
+  destruct (vsound_ext (removev v i) (remove_at (elems v) i)) as [A B].
+  - rewrite Hcap. cbn [removev vlen]. lia.
+  - rewrite remove_at_length by lia. cbn [removev vlen]. lia.
+  - cbn [removev vlen]. intros j Hj. unfold rd. cbn [removev slots].
+    rewrite nth_wrl by (rewrite slots_from_length; unfold vcapn in Hl; lia). rewrite slots_from_length.
+    rewrite nth_remove_at. nat_bool; try lia;
+      first [ rewrite nth_slots_from by lia; rewrite rd_elems by (auto; lia); f_equal; f_equal; lia
+            | fold (rd v j); apply rd_elems; [exact Hs|lia] ].
+  - auto.
+Qed.
+
+Definition swap_list (l : list N) (i : nat) : list N := removelast (updn l i (last l 0%N)).
+
+Lemma swap_remove_spec v i sl' : vsound v -> i < vlen v -> length sl' = vcapn v ->
+  (forall j, j < vlen v - 1 -> nth j sl' U = if Nat.eqb j i then rd v (vlen v - 1) else rd v j) ->
+  let v' := mkV sl' (vlen v - 1) in vsound v' /\ elems v' = swap_list (elems v) i /\ vcapn v' = vcapn v.
+Proof.
+  intros Hs Hi Hlen Hn v'. pose proof Hs as [Hl He].
+  destruct (vsound_ext v' (swap_list (elems v) i)) as [A B].
+  - unfold v', vcapn. cbn [slots vlen]. lia.
+  - unfold swap_list. rewrite removelast_length, updn_length. cbn [v' vlen]. lia.
+  - cbn [v' vlen]. intros j Hj. unfold rd. cbn [v' slots]. rewrite (Hn j Hj). unfold swap_list.
+    rewrite nth_removelast by (rewrite updn_length; lia). rewrite nth_updn by lia. rewrite last_nth, He.
+    destruct (Nat.eqb j i); apply rd_elems; auto; lia.
+  - auto.
+Qed.
+
+Lemma cnt_swap_list (l : list N) i x : i < length l -> cnt l x = cnt [nth i l 0%N] x + cnt (swap_list l i) x.
+Proof.
+  intros Hi. unfold swap_list. pose proof (cnt_updn l i (last l 0%N) x Hi) as H1.
+  assert (updn l i (last l 0%N) <> []) as Hne by (intros Hc; apply (f_equal (@length N)) in Hc; rewrite updn_length in Hc; cbn [length] in Hc; lia).
+  pose proof (cnt_removelast _ x Hne) as H2.
+  assert (last (updn l i (last l 0%N)) 0%N = last l 0%N) as Hlast.
+  { rewrite !last_nth, updn_length. rewrite nth_updn by lia. destruct (Nat.eqb_spec (length l - 1) i); auto. }
+  rewrite Hlast in H2. lia.
+Qed.
+
+(** copy [m] elements of [src] from [a] to [dst] at [i <= vlen dst], the new length being [i + m] *)
+Lemma wrl_copy dst src i a m : vsound dst -> i <= vlen dst -> vsound src -> a + m <= vlen src -> i + m <= vcapn dst ->
+  let v' := mkV (wrl (slots dst) i (slots_from src a m)) (i + m) in
+  vsound v' /\ elems v' = firstn i (elems dst) ++ firstn m (skipn a (elems src)) /\ vcapn v' = vcapn dst.
+Proof.
+  intros Hd Hi Hs Ha Hc v'. pose proof Hd as [Hld Hed]. pose proof Hs as [Hls Hes].
+  assert (vcapn v' = vcapn dst) as Hcap by (unfold v'; capsolve).
+  destruct (vsound_ext v' (firstn i (elems dst) ++ firstn m (skipn a (elems src)))) as [A B].
+  - rewrite Hcap. cbn [v' vlen]. lia.
+  - rewrite app_length, !firstn_length, skipn_length. cbn [v' vlen]. lia.
+  - cbn [v' vlen]. intros j Hj. unfold rd. cbn [v' slots].
+    rewrite nth_wrl by (rewrite slots_from_length; unfold vcapn in Hc; lia). rewrite slots_from_length.
+    rewrite nth_app', firstn_length. replace (Nat.min i (length (elems dst))) with i by lia. nat_bool; try lia;
+      first [ rewrite nth_slots_from by lia; rewrite nth_firstn' by lia; rewrite nth_skipn';
+              rewrite rd_elems by (auto; lia); f_equal; f_equal; lia
+            | rewrite nth_firstn' by lia; fold (rd dst j); apply rd_elems; [exact Hd|lia] ].
+  - auto.
+Qed.
+
+Lemma to_range_ok s e l a b : to_range s e l = Some (a, b) -> a <= b /\ b <= l.
+Proof.
+  unfold to_range, range_mono, ok_or, add_chk.
+  destruct s as [x|x|], e as [y|y|]; split_ifs; intros H; try discriminate; injection H as <- <-; lia.
+Qed.
+
+Lemma idents_slots_from v a n : vsound v -> a + n <= vlen v ->
+  idents (slots_from v a n) = firstn n (skipn a (elems v)).
+Proof. intros Hs H. rewrite slots_from_sound by assumption. apply idents_map_E. Qed.
+
+Lemma cnt_split5 (l : list N) a f mid bk x :
+  cnt l x = cnt (firstn a l) x + cnt (firstn f (skipn a l)) x + cnt (firstn mid (skipn (a + f) l)) x
+            + cnt (firstn bk (skipn (a + f + mid) l)) x + cnt (skipn (a + f + mid + bk) l) x.
+Proof.
+  rewrite (cnt_firstn_skipn l a x). rewrite (cnt_firstn_skipn (skipn a l) f x), skipn_add.
+  rewrite (cnt_firstn_skipn (skipn (a + f) l) mid x), skipn_add.
+  rewrite (cnt_firstn_skipn (skipn (a + f + mid) l) bk x), skipn_add. lia.
+Qed.
+
+Lemma reach_setv0 s i o0 o w x : nth_error (pool s) (N.to_nat i) = Some o0 ->
+  cnt (reachable (setv s i o w)) x + cnt (oelems o0) x = cnt (reachable s) x + cnt (oelems o) x.
+Proof.
+  intros H. unfold reachable, setv. cbn [pool handed]. fold (pelems (updn (pool s) (N.to_nat i) o)). fold (pelems (pool s)).
+  rewrite !count_occ_app. pose proof (cnt_pelems_updn (pool s) (N.to_nat i) o0 o x H). lia.
+Qed.
+
+Lemma setv_comm s i j a b w : i <> j -> setv (setv s i a w) j b w = setv (setv s j b w) i a w.
+Proof. intros H. unfold setv. cbn [pool handed]. f_equal. apply updn_comm. lia. Qed.
